@@ -11,8 +11,9 @@
     Every sequence is run with the scratch-built tools on a small populated image; after every step every candidate backup
     location is read by an independent parser (this module + lib/sbparse.py) and logged; at the end, for every prescribed
     location, a copy of the image gets its primary superblock and descriptors zeroed and is recovered with
-    `e2fsck -fy -b LOC -B BS` (and plain `e2fsck -fy` when the group size is the default one, min(8 * blocksize, 65528)),
-    then `e2fsck -fn`, then the tree digest of the independent reader.  e2fsck's own search for a backup (get_backup_sb:
+    `e2fsck -fy -b LOC -B BS` (and, when the group size is the default one, min(8 * blocksize, 65528), with plain `e2fsck -fy`
+    twice: primary superblock + descriptors zeroed, and descriptors alone zeroed), then `e2fsck -fn`, then the tree digest of
+    the independent reader.  e2fsck's own search for a backup (get_backup_sb:
     loop over block sizes, guessed group size, probe arithmetic) is transcribed in Backups.tla (constants in
     BackupSearch.tla); the universe ranges over every block size of the format (1k ... 64k, sparse images) for the
     recovery clauses, and the quick tier always contains every block size with both front ends.  TLC decides every line against Trace_Backups (the step must be the one the
@@ -250,12 +251,13 @@ def env_bitmap(path, obs, geo):
     return True
 
 
-def destroy_primary(path, obs, geo):
+def destroy_primary(path, obs, geo, keep_sb=False):
     s = obs["prim"]["sb"]
     bs = geo["bs"]
     descb = len(obs["prim"]["gd"])
     with open(path, "r+b") as f:
-        f.seek(1024); f.write(b"\0" * 1024)
+        if not keep_sb:
+            f.seek(1024); f.write(b"\0" * 1024)
         if s["metabg"]:
             for m in range(descb):
                 if m * s["dpb"] + 1 < s["gdc"]:          # the format prescribes a backup of this block
@@ -529,13 +531,13 @@ def run_fsck(b, img, flag):
     return rc, (1 if "trying backup blocks" in txt else 0), txt
 
 
-def recover(b, img, work, tag, obs, geo, g, tree_pre, plain=False):
+def recover(b, img, work, tag, obs, geo, g, tree_pre, plain=False, keep_sb=False):
     env = tool_env(b, {"E2FSPROGS_UNDO_DIR": "none"})
     fsck = os.path.join(b, "e2fsck", "e2fsck")
     cp = os.path.join(work, "%s_rec.img" % tag)
     copy_image(img, cp)
     try:
-        destroy_primary(cp, obs, geo)
+        destroy_primary(cp, obs, geo, keep_sb)
         blk = gfirst(geo, g)
         cmd = [fsck, "-fy", cp] if plain else [fsck, "-fy", "-b", str(blk), "-B", str(geo["bs"]), cp]
         rc, out, err = sh(cmd, env=env, timeout=300)
@@ -543,7 +545,7 @@ def recover(b, img, work, tag, obs, geo, g, tree_pre, plain=False):
         rc2, out2, err2 = sh([fsck, "-fn", cp], env=env, timeout=300)
         post, _ = observe(cp)
         tp, terr = tree_digest(cp) if post is not None else ("", "primary unreadable")
-        line = {"e": "plain" if plain else "recover", "g": g, "blk": blk, "geo": geo3(geo), "rc": rc if 0 <= rc < 200 else 255, "fn": rc2 if 0 <= rc2 < 200 else 255,
+        line = {"e": ("plaingd" if keep_sb else "plain") if plain else "recover", "g": g, "blk": blk, "geo": geo3(geo), "rc": rc if 0 <= rc < 200 else 255, "fn": rc2 if 0 <= rc2 < 200 else 255,
                 "tree_pre": tree_pre, "tree_post": tp if tp else "unreadable: " + terr, "parsed": 1 if post is not None else 0,
                 "obs": post if post is not None else DUMMY_OBS}
         return line, txt[-700:], (out2 + err2).decode("utf8", "replace")[-400:]
@@ -634,11 +636,12 @@ def run_case(args):
             lines.append(line)
             info["detail"][len(lines) - 1] = (txt, txt2)
         if geom.get("plain", geo["bpg"] == default_bpg(geo["bs"])) and s["gdc"] > 1:
-            line, txt, txt2 = recover(b, img, work, tag, obs, geo, 0, tree_pre, plain=True)
-            if tree_pre == "unknown":
-                line["tree_post"] = "unknown"
-            lines.append(line)
-            info["detail"][len(lines) - 1] = (txt, txt2)
+            for keep_sb in (False, True):                    # superblock + descriptors lost / descriptors alone lost
+                line, txt, txt2 = recover(b, img, work, tag, obs, geo, 0, tree_pre, plain=True, keep_sb=keep_sb)
+                if tree_pre == "unknown":
+                    line["tree_post"] = "unknown"
+                lines.append(line)
+                info["detail"][len(lines) - 1] = (txt, txt2)
         info["nlocs"] = len(locs)
         info["final_sb"] = s
     finally:
@@ -745,7 +748,8 @@ def model_check(tier, ev, vd):
     mod = os.path.join(SPEC, "MC_Backups.tla")
     # thorough: "wide" = every geometry up to 60 groups (descriptors per block 16 / 32), sequences <= 2;
     #           "deep" = up to 20 groups with 4 / 8 descriptors per block (same meta-group boundaries, scaled), sequences <= 3
-    cfgs = ["MC_Backups_wide.cfg", "MC_Backups_deep.cfg"] if tier == "thorough" and os.environ.get("VERIF_C20_MC") != "quick" else ["MC_Backups_quick.cfg"]
+    # (+ thorough: "sizes_thorough" = every block size x default / non-default group size, up to 8 groups, sequences <= 2, both kinds of damage)
+    cfgs = ["MC_Backups_wide.cfg", "MC_Backups_deep.cfg", "MC_Backups_sizes_thorough.cfg"] if tier == "thorough" and os.environ.get("VERIF_C20_MC") != "quick" else ["MC_Backups_quick.cfg"]
     for c in cfgs:
         r = T.tlc(mod, os.path.join(SPEC, c), workers=4, timeout=2700, xmx="4g")
         ev.add_tlc(r, "MC_Backups (%s): geometries x tool sequences x DestroyPrimary/RecoverFrom; TypeOK, InvCurrent, InvBackupSet, Ss2Shape, InvRecover, action property FsckKeeps" % c)
@@ -779,12 +783,43 @@ def model_check(tier, ev, vd):
 
 
 TR_MOD = os.path.join(SPEC, "Trace_Backups.tla")
-TR_CFG = os.path.join(SPEC, "Trace_Backups.cfg")                     # conformance: the named deviations of e2fsck's backup search enabled
+TR_CFG = os.path.join(SPEC, "Trace_Backups.cfg")                     # every named deviation of e2fsck's backup search enabled; the run uses conformance_cfg()
 TR_STRICT = os.path.join(SPEC, "Trace_Backups_strict.cfg")           # the property as stated (every deviation off)
 DEV_KEY = "DevBackupSearchIgnoresSs2"
 # a behaviour the strict cfg rejects is attributed BY TLC: it is validated again with exactly one deviation enabled
 DEV_ONLY = [("DevSearchGuesses8xBs", os.path.join(SPEC, "Trace_Backups_only_8x.cfg")),
             ("DevBackupSearchIgnoresSs2", os.path.join(SPEC, "Trace_Backups_only_ss2.cfg"))]
+
+
+def known_keys(vd=None):
+    """keys of the listed known findings of this property (known_findings.txt through Verdict, + fixes/C20_known_findings.txt)"""
+    import evidence
+    keys = set(vd.known) if vd is not None else {k for f in evidence.load_findings(PID) for k in [f["key"]] + list(f.get("keys", []))}
+    kf = os.path.join(VERIF, "fixes", "C20_known_findings.txt")
+    if os.path.exists(kf):
+        for ln in open(kf):
+            ln = ln.strip()
+            if ln.startswith("{"):
+                d = json.loads(ln)
+                if d.get("property") == PID:
+                    keys.add(d["key"])
+    return keys
+
+
+def conformance_cfg(work, known):
+    """The conformance cfg = the strict cfg with exactly the LISTED named deviations of e2fsck's backup search enabled: a
+    deviation that is no longer a listed known finding (repaired in the tree) is demanded in its repaired form already in the
+    first pass.  (spec/Trace_Backups.cfg is this file with every search deviation enabled.)"""
+    txt = open(TR_STRICT).read()
+    for dk, dcfg in DEV_ONLY:
+        if ("  %s = FALSE\n" % dk) not in txt:
+            die_broken("Trace_Backups_strict.cfg does not set %s = FALSE" % dk)
+        if dk in known:
+            txt = txt.replace("  %s = FALSE\n" % dk, "  %s = TRUE\n" % dk)
+    p = os.path.join(work, "Trace_Backups_conformance.cfg")
+    with open(p, "w") as f:
+        f.write(txt)
+    return p
 
 
 def validate_rounds(behaviours, cfg, work, chunk_lines=160, jobs=3, timeout=900):
@@ -843,13 +878,13 @@ def describe_failure(res, li):
     if li >= len(lines):
         return "trace ended early", {}
     l = lines[li]
-    if l["e"] in ("recover", "plain"):
+    if l["e"] in ("recover", "plain", "plaingd"):
         w = []
-        if l["rc"] not in (0, 1): w.append("e2fsck -fy%s exit %d" % ("" if l["e"] == "plain" else " -b %d -B" % l["blk"], l["rc"]))
+        if l["rc"] not in (0, 1): w.append("e2fsck -fy%s exit %d" % ("" if l["e"] != "recover" else " -b %d -B" % l["blk"], l["rc"]))
         if l["fn"] != 0: w.append("following e2fsck -fn exit %d" % l["fn"])
         if l["tree_post"] != l["tree_pre"]: w.append("tree digest changed (%s -> %s)" % (l["tree_pre"], l["tree_post"]))
         if l["parsed"] and not w: w.append("after the recovery: " + explain(l["obs"]))
-        what = "recovery from %s: %s" % ("plain e2fsck" if l["e"] == "plain" else "group %d" % l["g"], "; ".join(w) or "restored state differs from the model")
+        what = "recovery from %s: %s" % ("plain e2fsck (primary superblock and descriptors zeroed)" if l["e"] == "plain" else "plain e2fsck (primary descriptors zeroed)" if l["e"] == "plaingd" else "group %d" % l["g"], "; ".join(w) or "restored state differs from the model")
     elif l.get("fn", 0) != 0:
         what = "e2fsck -fn exits %d after %s (%s)" % (l["fn"], l["e"], explain(l["obs"]))
     else:
@@ -888,7 +923,8 @@ def run(tier):
             t_tools = time.time() - t0
             live = [i for i, r in enumerate(res) if r["lines"]]
             behs = [behaviour_lines(res[i]) for i in live]
-            out = tracecheck.validate(behs, TR_MOD, TR_CFG, work, chunk_lines=160, timeout=900, jobs=3)
+            conf = conformance_cfg(work, known_keys(vd))
+            out = tracecheck.validate(behs, TR_MOD, conf, work, chunk_lines=160, timeout=900, jobs=3)
             mc.result()
         if out["broken"]:
             die_broken("TLC failed on a trace chunk: %s\n%s" % (out["broken"][0]["error"], out["broken"][0]["out_tail"][-1800:]))
@@ -900,7 +936,7 @@ def run(tier):
             gi, o = seqs[ci]
             # confirmation: run the behaviour again and validate the re-run alone
             again = run_case((b, geoms[gi], o, work, 900000 + ci, trees, maxloc, seed() * 1000003 + ci))
-            rej, matched, inv, tail, rr = tracecheck.confirm(behaviour_lines(again), TR_MOD, TR_CFG, work, timeout=600)
+            rej, matched, inv, tail, rr = tracecheck.confirm(behaviour_lines(again), TR_MOD, conf, work, timeout=600)
             if rr["error"]:
                 die_broken("TLC failed while confirming: %s" % rr["error"])
             if not rej:
@@ -916,7 +952,7 @@ def run(tier):
         # ---- second pass, the property as stated: behaviours in which e2fsck had to find a backup by itself (plain e2fsck on a
         # destroyed primary, or the fall-back after damaged primary descriptors) are validated with the deviation OFF; a
         # rejection there (and only at such a line) is the known finding, routed through its key
-        cand = [i for i in live if i not in failed and any(l["e"] == "plain" or (l["e"] == "fsck" and l.get("frombackup") == 1) for l in res[i]["lines"])]
+        cand = [i for i in live if i not in failed and any(l["e"] in ("plain", "plaingd") or (l["e"] == "fsck" and l.get("frombackup") == 1) for l in res[i]["lines"])]
         dev_hits = []
         strict_rejected = set()
         if cand:
@@ -929,7 +965,7 @@ def run(tier):
                 ci = cand[f["behaviour"]]
                 li = f["line_in_behaviour"]
                 l = res[ci]["lines"][li] if li < len(res[ci]["lines"]) else {}
-                if not (l.get("e") == "plain" or (l.get("e") == "fsck" and l.get("frombackup") == 1)) or f["violated"]:
+                if not (l.get("e") in ("plain", "plaingd") or (l.get("e") == "fsck" and l.get("frombackup") == 1)) or f["violated"]:
                     die_broken("the strict trace cfg rejects %s / %s at line %d (%s), which is not a backup-search line" % (geom_key(geoms[seqs[ci][0]]), [op_key(x) for x in seqs[ci][1]], li, l.get("e")))
                 if ci not in strict_rejected:
                     strict_rejected.add(ci)
@@ -953,8 +989,8 @@ def run(tier):
             for ci, li, l in rejected:
                 gi, o = seqs[ci]
                 keys = explains[ci] or [dk for dk, dcfg in DEV_ONLY]  # needs more than one of them
-                if l["e"] == "plain":
-                    what = "plain e2fsck -fy after the primary was destroyed: exit %d, e2fsck -fn %d, tree %s" % (l["rc"], l["fn"], "same" if l["tree_post"] == l["tree_pre"] else "CHANGED")
+                if l["e"] in ("plain", "plaingd"):
+                    what = "plain e2fsck -fy after the primary %s destroyed: exit %d, e2fsck -fn %d, tree %s" % ("superblock and descriptors were" if l["e"] == "plain" else "descriptors were", l["rc"], l["fn"], "same" if l["tree_post"] == l["tree_pre"] else "CHANGED")
                 else:
                     s2 = l["obs"]["prim"]["sb"]
                     what = "e2fsck -fy fell back to a stale copy: the filesystem now has %d groups, s_backup_bgs %s" % (s2["gdc"], s2["bk"])
@@ -966,13 +1002,13 @@ def run(tier):
         ev.cov["known_deviation_hits"] = sorted(set(dev_hits))[:60]
         # ---- evidence
         nlines = sum(len(r["lines"]) for r in res)
-        nrec = sum(1 for r in res for l in r["lines"] if l["e"] in ("recover", "plain"))
+        nrec = sum(1 for r in res for l in r["lines"] if l["e"] in ("recover", "plain", "plaingd"))
         ev.cov["evaluations"] = nlines
         ev.cov["behaviours"] = len(live)
         ev.cov["traces_validated_against_impl"] = len(live) - len(failed)
         ev.cov["traces_also_accepted_by_the_strict_cfg"] = len(cand) - len(strict_rejected)
         ev.cov["recoveries"] = nrec
-        ev.cov["plain_e2fsck_recoveries"] = sum(1 for r in res for l in r["lines"] if l["e"] == "plain")
+        ev.cov["plain_e2fsck_recoveries"] = sum(1 for r in res for l in r["lines"] if l["e"] in ("plain", "plaingd"))
         ev.cov["tool_lines"] = nlines - nrec
         ev.cov["universe"] = dict(geometries=len(geoms), **usizes)
         ev.cov["sequences_run"] = len(seqs)
@@ -989,7 +1025,7 @@ def run(tier):
         ev.cov["lines_by_event"] = kinds
         ev.cov["fsck_lines_that_fell_back_to_a_backup"] = sum(1 for r in res for l in r["lines"] if l["e"] == "fsck" and l.get("frombackup") == 1)
         ev.cov["inconsistent_after_tool"] = sum(1 for r in res if r["info"].get("inconsistent_after"))
-        absent = [k for k in ("mkfs", "resize", "resize64", "tunefeat", "uuid", "isize", "env", "envdata", "envbk", "fsck", "recover", "plain") if not kinds.get(k)]
+        absent = [k for k in ("mkfs", "resize", "resize64", "tunefeat", "uuid", "isize", "env", "envdata", "envbk", "fsck", "recover", "plain", "plaingd") if not kinds.get(k)]
         if not ev.cov["fsck_lines_that_fell_back_to_a_backup"]:
             absent.append("fsck(from backup)")
         if absent and not vd.viol:
@@ -1008,14 +1044,15 @@ def run(tier):
             s = r["info"].get("final_sb", {})
             ev.sample({"geom": geom_key(r["info"]["geom"]), "ops_done": r["info"].get("done"), "skipped": r["info"]["skipped"][:3],
                        "final": {k: s.get(k) for k in ("gdc", "dpb", "sparse", "ss2", "metabg", "bk", "feat")},
-                       "recoveries": [{"g": l["g"], "rc": l["rc"], "fn": l["fn"], "tree_same": l["tree_post"] == l["tree_pre"]} for l in r["lines"] if l["e"] in ("recover", "plain")][:6]})
+                       "recoveries": [{"g": l["g"], "rc": l["rc"], "fn": l["fn"], "tree_same": l["tree_post"] == l["tree_pre"]} for l in r["lines"] if l["e"] in ("recover", "plain", "plaingd")][:6]})
         ev.assumptions = [
             "images are unmounted regular files; s_first_meta_bg = 0 (offline resize2fs, mke2fs and tune2fs never set another value); no bigalloc; <= 128 groups",
             "current = equal to the primary in the fields recovery needs: block/inode counts, geometry fields, the three feature words minus the bits e2fsprogs itself ignores when comparing copies (large_file, dir_nlink, orphan_present, extents, needs_recovery), UUID, s_backup_bgs, reserved GDT count, and the block-bitmap / inode-bitmap / inode-table locations of every descriptor; free counts, flags, checksums of backup descriptors, times and mount counts are not compared",
             "a valid copy = magic, s_block_group_nr = its group, superblock checksum verifies (metadata_csum)",
             "a refused tool run (exit != 0) carries no obligation and is skipped; a tool run (resize2fs, tune2fs [+ the e2fsck it asks for], repairing e2fsck) after which e2fsck -fn is not clean is rejected: the property's experiment presupposes a consistent image (such a run also violates C08 / C11)",
             "environment steps are written by the harness itself: primary-only feature bit (dir_prealloc), zeroed inode-table pointer in the primary descriptors, one flipped block-bitmap bit, stale feature word in the FIRST backup copy (the only one check_backup_super_block looks at); damage to other backup copies is outside the universe",
-            "conformance is checked with the named deviations of e2fsck's own backup search enabled: DevBackupSearchIgnoresSs2 (known finding: the search probes groups 1, 3, 5, 7, 9, 25, ... and takes the first superblock-looking block, whatever s_backup_bgs says and however stale) and DevSearchGuesses8xBs (without a superblock the group size is guessed as 8 * blocksize, which no filesystem with 8k ... 64k blocks has; fixes/C20_backup_search_bpg.patch); every behaviour in which that search ran is validated a second time with every deviation off, and a rejection there is attributed by TLC (accepted with exactly one deviation enabled) and reported under that deviation's key",
+            "conformance is checked with those named deviations of e2fsck's own backup search enabled that are listed known findings (this run: %s): DevBackupSearchIgnoresSs2 (known finding: the search probes groups 1, 3, 5, 7, 9, 25, ... and takes the first superblock-looking block, whatever s_backup_bgs says and however stale) and DevSearchGuesses8xBs (without a superblock the group size is guessed as 8 * blocksize, which no filesystem with 8k ... 64k blocks has; fixes/C20_backup_search_bpg.patch); every behaviour in which that search ran is validated a second time with every deviation off, and a rejection there is attributed by TLC (accepted with exactly one deviation enabled) and reported under that deviation's key" % (sorted(k for k in known_keys(vd) if k in dict(DEV_ONLY)) or "none"),
+            "plain e2fsck is run on two kinds of damage: primary superblock and descriptor blocks zeroed ('Superblock invalid, trying backup blocks': get_backup_sb knows nothing), and descriptor blocks alone zeroed ('Group descriptors look bad... trying backup blocks': get_backup_sb knows block and group size)",
             "plain e2fsck is obliged when blocks per group = min(8 * blocksize, 65528), the group size mke2fs chooses by default (8 * blocksize is not a legal group size from 8k blocks on); the image file is exactly as large as the filesystem (get_backup_sb derives its probe limit from the device size)",
             "block sizes above 4 KiB: sparse image files (0.5 ... 4 GiB per group), 128 inodes per group (-N), no journal; tune2fs -O has_journal is not in the universe there",
             "meta_bg: the primary copy of a descriptor block is zeroed only when the format prescribes a backup of it (the meta group has a second group)",
@@ -1035,7 +1072,7 @@ def replay(path):
         trees = make_trees(work)
         res = run_case((b, rp["geom"], rp["ops"], work, 0, trees, 0, 1))
         for i, l in enumerate(res["lines"]):
-            if l["e"] in ("recover", "plain"):
+            if l["e"] in ("recover", "plain", "plaingd"):
                 print("%-8s g=%-3d blk=%-6d e2fsck -fy rc=%d, -fn rc=%d, tree %s, after: %s" % (l["e"], l["g"], l["blk"], l["rc"], l["fn"],
                       "same" if l["tree_post"] == l["tree_pre"] else "CHANGED", explain(l["obs"]) if l["parsed"] else "primary unreadable"))
             else:
@@ -1045,7 +1082,7 @@ def replay(path):
             print("skipped: " + s)
         if res["info"]["stopped"]:
             print("stopped: " + res["info"]["stopped"])
-        rej, matched, inv, tail, rr = tracecheck.confirm(behaviour_lines(res), TR_MOD, TR_CFG, work, timeout=600)
+        rej, matched, inv, tail, rr = tracecheck.confirm(behaviour_lines(res), TR_MOD, conformance_cfg(work, known_keys()), work, timeout=600)
         if rr["error"]:
             die_broken("TLC failed: %s\n%s" % (rr["error"], tail[-1500:]))
         if rej:
